@@ -5,6 +5,7 @@
 //   thread <T> call <k> <timeout|inf> <bufcap> ; sleep <us> ; yield ; ...
 //   at <t> deliver <R> <off> <len>   bytes [off, off+len) of response R (40-byte header + body) arrive
 //   at <t> rerror                    the stream breaks (reads fail with ECONNRESET)
+//   at <t> eof                       the peer closes: reads return the bytes received so far (short count), then 0
 //   wfail <i>                        the i-th writev fails;   wslow <i> <us>  the i-th writev takes <us>
 //   run
 #include <photon/thread/thread.h>
@@ -205,6 +206,7 @@ static int run_program(const std::vector<std::string>& lines) {
                     emit("wire %d %lu %lu tag=%lu", r.id, (unsigned long)off, (unsigned long)len, (unsigned long)r.tag);
                     stream->cv.notify_all();
                 };
+            } else if (what == "eof") { e.text = "eof"; e.fire = [] { stream->closed = true; emit("eof"); stream->cv.notify_all(); };
             } else if (what == "rerror") { e.text = "rerror"; e.fire = [] { stream->rerr = true; emit("rerror"); stream->cv.notify_all(); }; }
             externals.push_back(e); }
     }
